@@ -1,6 +1,7 @@
 package main
 
 import (
+	"encoding/json"
 	"fmt"
 	"go/types"
 	"os"
@@ -272,15 +273,25 @@ func main() {
 		fmt.Fprintln(os.Stderr, "usage: govc vc <pkg> <func> | govc check <id> [--tier quick|thorough] | govc replay <file>")
 		os.Exit(2)
 	}
+	exit := func(rc int) {
+		if workDir != "" {
+			os.RemoveAll(workDir)
+		}
+		os.Exit(rc)
+	}
 	switch os.Args[1] {
 	case "vc":
 		cmdVC(os.Args[2:])
+		exit(0)
 	case "check":
-		os.Exit(cmdCheck(os.Args[2:]))
+		exit(cmdCheck(os.Args[2:]))
 	case "sweep":
 		cmdSweep(os.Args[2:])
+		exit(0)
 	case "replay":
-		os.Exit(cmdReplay(os.Args[2:]))
+		exit(cmdReplay(os.Args[2:]))
+	case "hints":
+		exit(cmdHints())
 	default:
 		fmt.Fprintln(os.Stderr, "unknown command", os.Args[1])
 		os.Exit(2)
@@ -354,4 +365,47 @@ func printReport(rep *FuncReport, dump string) {
 	for _, n := range rep.Assumptions {
 		fmt.Println("assumes:", n)
 	}
+}
+
+// cmdHints regenerates /verif/solver_hints.json from the evidence files: for every obligation that was not
+// discharged by the first-stage solver, the back end that discharged it.
+func cmdHints() int {
+	files, _ := filepath.Glob(filepath.Join(verifDir(), "evidence", "C*.json"))
+	out := map[string]string{}
+	var walk func(x interface{})
+	walk = func(x interface{}) {
+		switch v := x.(type) {
+		case map[string]interface{}:
+			n, _ := v["name"].(string)
+			sv, _ := v["solver"].(string)
+			st, _ := v["status"].(string)
+			if n != "" && (st == "unsat") && (sv == "z3" || sv == "cvc5") {
+				out[n] = sv
+			}
+			for _, c := range v {
+				walk(c)
+			}
+		case []interface{}:
+			for _, c := range v {
+				walk(c)
+			}
+		}
+	}
+	for _, f := range files {
+		b, err := os.ReadFile(f)
+		if err != nil {
+			continue
+		}
+		var d interface{}
+		if json.Unmarshal(b, &d) == nil {
+			walk(d)
+		}
+	}
+	b, _ := json.MarshalIndent(out, "", " ")
+	if err := os.WriteFile(filepath.Join(verifDir(), "solver_hints.json"), append(b, '\n'), 0o644); err != nil {
+		fmt.Println(err)
+		return 2
+	}
+	fmt.Printf("%d hints written\n", len(out))
+	return 0
 }
